@@ -612,6 +612,22 @@ func c08AdvValid(p *chk.Prog, r *chk.Report) {
 					ok = g.Dominated(rt, bothPeers) && g.Dominated(rt, chk.GBool(false, ac.IsObj(eq)))
 				}
 				if !ok {
+					// having a node in common is symmetric: the two node sets held in two locals that start as
+					// (A.Nodes, B.Nodes) in either order and are only ever exchanged with each other
+					if x1, y1, isPair := nodeSetPair(ac, na, ad); isPair {
+						for _, rs := range ac.RangeLoops(func(e ast.Expr) bool { o := ac.ObjOf(e); return o != nil && (o == x1 || o == y1) }) {
+							other := y1
+							if ac.ObjOf(rs.X) == y1 {
+								other = x1
+							}
+							guard := g.GPat(false, "OK", chk.H("OK", definedBy(g, "M[N]", chk.H("M", ac.IsObj(other)), chk.H("N", rangeKey(ac, rs)))))
+							if forallBefore(ac, g, rs, guard, rt) == "" {
+								ok = true
+							}
+						}
+					}
+				}
+				if !ok {
 					for _, rs := range ac.RangeLoops(func(e ast.Expr) bool { return ac.MatchWith("A.Nodes", e, chk.H("A", na)) != nil }) {
 						guard := g.GPat(false, "OK", chk.H("OK", definedBy(g, "B.Nodes[N]", chk.H("B", ad), chk.H("N", rangeKey(ac, rs)))))
 						if forallBefore(ac, g, rs, guard, rt) == "" {
@@ -621,7 +637,11 @@ func c08AdvValid(p *chk.Prog, r *chk.Report) {
 				}
 				x.Check("advertisementsAreCompatible:true#"+itoa(nt), rt.Pos(), ok, "", "two advertisements can be declared compatible although they share aggregation lengths, a peer (an empty peer list means every peer) and a node")
 			case ac.IsConstBool(rr[0], !yes):
-				x.Check("advertisementsAreCompatible:false-needs-common-node", rt.Pos(), g.Dominated(rt, chk.GBool(true, definedBy(g, "B.Nodes[N]", chk.H("B", ad)))), "", "advertisements are declared incompatible without a common node")
+				common := chk.GBool(true, definedBy(g, "B.Nodes[N]", chk.H("B", ad)))
+				if x1, y1, isPair := nodeSetPair(ac, na, ad); isPair {
+					common = chk.GOr(common, chk.GBool(true, definedBy(g, "M[N]", chk.H("M", func(e ast.Expr) bool { o := ac.ObjOf(e); return o != nil && (o == x1 || o == y1) }))))
+				}
+				x.Check("advertisementsAreCompatible:false-needs-common-node", rt.Pos(), g.Dominated(rt, common), "", "advertisements are declared incompatible without a common node")
 			}
 		}
 		x.Check("advertisementsAreCompatible:shape", ac.Pos(), nt == 3 && eq != nil, "", "expected the aggregation-length, disjoint-peers and no-common-node arms")
@@ -1076,4 +1096,48 @@ func c08NodeIPsTwoPhase(nf *chk.Fn, ng *chk.Graph) bool {
 		}
 	}
 	return n >= 1
+}
+
+// nodeSetPair finds two locals of the function that hold A.Nodes and B.Nodes (in either order) and are, apart from that
+// first assignment, only ever exchanged with each other (`x, y = y, x`): whichever is which, the two are the two node sets.
+func nodeSetPair(f *chk.Fn, a, b func(ast.Expr) bool) (types.Object, types.Object, bool) {
+	var x, y types.Object
+	ok := true
+	nInit := 0
+	ast.Inspect(f.Body, func(n ast.Node) bool {
+		as, isAs := n.(*ast.AssignStmt)
+		if !isAs || len(as.Lhs) != 2 || len(as.Rhs) != 2 {
+			return true
+		}
+		l0, l1 := f.ObjOf(as.Lhs[0]), f.ObjOf(as.Lhs[1])
+		if l0 == nil || l1 == nil {
+			return true
+		}
+		isSel := func(e ast.Expr) bool { _, is := ast.Unparen(e).(*ast.SelectorExpr); return is }
+		isA := func(e ast.Expr) bool { return isSel(e) && f.MatchWith("A.Nodes", e, chk.H("A", a)) != nil }
+		isB := func(e ast.Expr) bool { return isSel(e) && f.MatchWith("B.Nodes", e, chk.H("B", b)) != nil }
+		switch {
+		case (isA(as.Rhs[0]) && isB(as.Rhs[1])) || (isB(as.Rhs[0]) && isA(as.Rhs[1])):
+			x, y = l0, l1
+			nInit++
+		case x != nil && ((l0 == x && l1 == y) || (l0 == y && l1 == x)):
+			r0, r1 := f.ObjOf(as.Rhs[0]), f.ObjOf(as.Rhs[1])
+			if !(r0 == l1 && r1 == l0) {
+				ok = false
+			}
+		}
+		return true
+	})
+	if x == nil || nInit != 1 || !ok {
+		return nil, nil, false
+	}
+	// no other assignment to either
+	for _, o := range []types.Object{x, y} {
+		for _, d := range assignsTo(f, o) {
+			if as, isAs := d.(*ast.AssignStmt); !isAs || len(as.Lhs) != 2 {
+				return nil, nil, false
+			}
+		}
+	}
+	return x, y, true
 }
